@@ -297,4 +297,88 @@ theorem C07_concurrent (acts : List Conc.Act) (i t : Nat) (o : Out)
     (Spec.run {} (opsOf (Conc.linOps σ.lin))).2 = Conc.linOuts σ.lin :=
   ⟨C06.C06_write_linearizable acts i (.commit t) o hret hop rfl, (C06.C06_log_is_spec_history acts).1⟩
 
+/-! ### "at most one of their Commit calls succeeds", under every schedule -/
+
+theorem run_split (s : State) (a b : List Op) :
+    (Spec.run s (a ++ b)).1 = (Spec.run (Spec.run s a).1 b).1 ∧
+    (Spec.run s (a ++ b)).2 = (Spec.run s a).2 ++ (Spec.run (Spec.run s a).1 b).2 := by
+  induction a generalizing s with
+  | nil => exact ⟨rfl, rfl⟩
+  | cons x a ih =>
+    simp only [List.cons_append, Spec.run]
+    have := ih (Spec.step s x).1
+    exact ⟨this.1, by rw [this.2]⟩
+
+theorem run_outs_length (s : State) (a : List Op) : (Spec.run s a).2.length = a.length := by
+  induction a generalizing s with
+  | nil => rfl
+  | cons x a ih => simp only [Spec.run, List.length_cons, ih]
+
+theorem sinv_run (s : State) (hs : SInv s) (a : List Op) : SInv (Spec.run s a).1 := by
+  induction a generalizing s with
+  | nil => exact hs
+  | cons x a ih => exact ih _ (hs.step x)
+
+/-- **At most one commits.**  Take ANY schedule of ANY client programs of the small-step model and
+    look at its log (operations in the order of their linearization points, counter advances
+    erased): `pre`, then the Commit of `t1`, then `mid`, then the Commit of `t2`, then `post`.  If
+    after `pre` both transactions are open, `t2` is a snapshot transaction, both have written `k`,
+    and nothing in `mid` ends or restarts `t2`: when the answer logged for — hence returned by
+    (`C07_concurrent`) — the first Commit is nil, the answer of the second is ErrTxSerialization. -/
+theorem C07_concurrent_at_most_one (acts : List Conc.Act) (pre mid post : List Op) (t1 t2 : Nat) (x1 x2 : STx) (k : Key)
+    (hlog : opsOf (Conc.linOps (Conc.exec {} acts).lin) = pre ++ (Op.commit t1 :: mid ++ Op.commit t2 :: post))
+    (hne : t1 ≠ t2) (hm1 : t1 ≠ mainTx) (hm2 : t2 ≠ mainTx)
+    (hf1 : find (Spec.run {} pre).1 t1 = some x1) (hf2 : find (Spec.run {} pre).1 t2 = some x2)
+    (hl2 : x2.level.snapshot = true) (hw1 : (x1.own k).isSome) (hw2 : (x2.own k).isSome)
+    (hmid : ∀ op ∈ mid, Keeps t2 op)
+    (hok : (Conc.linOuts (Conc.exec {} acts).lin)[pre.length]? = some .ok) :
+    (Conc.linOuts (Conc.exec {} acts).lin)[pre.length + 1 + mid.length]? = some (.err .txSerialization) := by
+  have hp := Conc.log_pure (Conc.reachable_inv acts)
+  rw [hlog] at hp
+  rw [← hp] at hok ⊢
+  have hsi : SInv (Spec.run {} pre).1 := sinv_run {} SInv.init pre
+  have hl1 : (Spec.run {} pre).2.length = pre.length := run_outs_length {} pre
+  -- split the run at the two commits
+  obtain ⟨_, o1⟩ := run_split {} pre (Op.commit t1 :: mid ++ Op.commit t2 :: post)
+  rw [o1] at hok ⊢
+  generalize (Spec.run {} pre).1 = s at hf1 hf2 hsi hok ⊢
+  generalize (Spec.run {} pre).2 = outs0 at hl1 hok ⊢
+  have e2 : (Spec.run s (Op.commit t1 :: mid ++ Op.commit t2 :: post)).2
+      = (Spec.commit s t1).2 :: (Spec.run (Spec.commit s t1).1 (mid ++ Op.commit t2 :: post)).2 := rfl
+  obtain ⟨_, o3⟩ := run_split (Spec.commit s t1).1 mid (Op.commit t2 :: post)
+  have e4 : (Spec.run (Spec.run (Spec.commit s t1).1 mid).1 (Op.commit t2 :: post)).2
+      = (Spec.commit (Spec.run (Spec.commit s t1).1 mid).1 t2).2 :: (Spec.run (Spec.commit (Spec.run (Spec.commit s t1).1 mid).1 t2).1 post).2 := rfl
+  have hl2' : (Spec.run (Spec.commit s t1).1 mid).2.length = mid.length := run_outs_length _ mid
+  rw [e2, o3, e4] at hok ⊢
+  have hok' : (Spec.commit s t1).2 = .ok := by
+    rw [List.getElem?_append_right (by omega)] at hok
+    simp [hl1] at hok
+    exact hok
+  have hmain := C07_first_committer_wins s hsi t1 t2 x1 x2 k hne hm1 hm2 hf1 hf2 hl2 hw1 hw2 hok' mid hmid
+  rw [List.getElem?_append_right (by omega)]
+  have i1 : pre.length + 1 + mid.length - outs0.length = (mid.length + 1) := by omega
+  rw [i1, List.getElem?_cons_succ, List.getElem?_append_right (by omega)]
+  simp [hl2']
+  exact hmain.1
+
+/-- non-vacuity: two snapshot writers of "k" whose Commit calls interleave step by step (thread 2
+    removes its registry entry before thread 1 runs UpdateTx): the log is `pre ++ [commit 1, commit 2]`,
+    the hypotheses hold, the first Commit answers nil and the second ErrTxSerialization -/
+def twoCommitters : List Conc.Act :=
+  [.call 0 (.set 0 "k" 1), .run 0, .run 0, .run 0, .run 0,
+   .call 1 (.begin 1 .ser), .run 1, .run 1, .run 1,
+   .call 2 (.begin 2 .ser), .run 2, .run 2, .run 2,
+   .call 1 (.set 1 "k" 2), .run 1, .run 1, .run 1, .run 1,
+   .call 2 (.set 2 "k" 3), .run 2, .run 2, .run 2, .run 2,
+   .call 1 (.commit 1), .call 2 (.commit 2), .run 1, .run 2, .run 1, .run 2, .run 1, .run 2]
+
+example :
+    opsOf (Conc.linOps (Conc.exec {} twoCommitters).lin)
+      = [.set 0 "k" 1, .begin 1 .ser, .begin 2 .ser, .set 1 "k" 2, .set 2 "k" 3] ++ (Op.commit 1 :: [] ++ Op.commit 2 :: []) ∧
+    Conc.linOuts (Conc.exec {} twoCommitters).lin = [.ok, .ok, .ok, .ok, .ok, .ok, .err .txSerialization] ∧
+    (∃ x1 x2, find (Spec.run {} [.set 0 "k" 1, .begin 1 .ser, .begin 2 .ser, .set 1 "k" 2, .set 2 "k" 3]).1 1 = some x1 ∧
+      find (Spec.run {} [.set 0 "k" 1, .begin 1 .ser, .begin 2 .ser, .set 1 "k" 2, .set 2 "k" 3]).1 2 = some x2 ∧
+      x2.level.snapshot = true ∧ (x1.own "k").isSome = true ∧ (x2.own "k").isSome = true) := by
+  refine ⟨by decide, by decide, _, _, rfl, rfl, by decide, by decide, by decide⟩
+
 end FsDb.C07
